@@ -168,3 +168,65 @@ func clientCallSitesLean() (string, map[string]bool) {
 	sb.WriteString("]\n\n")
 	return sb.String(), serial
 }
+
+// astPassThrough: the client function hands the decoded answer to its caller as it was decoded - in the select case
+// that receives the answer, nothing stands between `m.Unmarshal(&x)` and `return &x, nil`: the only statements are the
+// declaration of x, the `if … m.Unmarshal(&x) …` whose body only returns, and the return (C17: every field "received
+// with exactly the value that was sent").
+func astPassThrough(file, sendFn string) bool {
+	fset := token.NewFileSet()
+	f, err := parser.ParseFile(fset, file, nil, 0)
+	if err != nil {
+		return false
+	}
+	found, ok := false, true
+	for _, d := range f.Decls {
+		fd, isFn := d.(*ast.FuncDecl)
+		if !isFn || fd.Body == nil || fd.Name.Name != sendFn {
+			continue
+		}
+		ast.Inspect(fd.Body, func(n ast.Node) bool {
+			sel, isSel := n.(*ast.SelectStmt)
+			if !isSel {
+				return true
+			}
+			for _, c := range sel.Body.List {
+				cc := c.(*ast.CommClause)
+				as, isAs := cc.Comm.(*ast.AssignStmt)
+				if !isAs || len(as.Rhs) != 1 {
+					continue
+				}
+				if u, isRecv := as.Rhs[0].(*ast.UnaryExpr); !isRecv || u.Op != token.ARROW {
+					continue
+				}
+				found = true
+				for _, st := range cc.Body {
+					switch x := st.(type) {
+					case *ast.DeclStmt, *ast.ReturnStmt:
+					case *ast.IfStmt:
+						// if <init: … Unmarshal(…)>; cond { return … }  without else
+						isUnmarshal := false
+						if init, isInit := x.Init.(*ast.AssignStmt); isInit && len(init.Rhs) == 1 {
+							if call, isCall := init.Rhs[0].(*ast.CallExpr); isCall && calleeName(call.Fun) == "Unmarshal" {
+								isUnmarshal = true
+							}
+						}
+						onlyReturns := x.Else == nil
+						for _, b := range x.Body.List {
+							if _, isRet := b.(*ast.ReturnStmt); !isRet {
+								onlyReturns = false
+							}
+						}
+						if !isUnmarshal || !onlyReturns {
+							ok = false
+						}
+					default:
+						ok = false
+					}
+				}
+			}
+			return true
+		})
+	}
+	return found && ok
+}
